@@ -56,6 +56,15 @@ func (o *c17) exportStore(storePath string) ([][]string, string, error) {
 	out := fmt.Sprintf("export%d.csv.gz", o.seq)
 	cfg := core.BaseConfig(storePath)
 	cfg.Db.PreparedDbFilePath = out
+	if o.seq%2 == 1 {
+		// environment: an earlier export on this host was killed after writing its intermediate CSV
+		// (fixed name in the temp directory) - a longer one than this store will produce
+		var stale bytes.Buffer
+		for i := 0; i < 3000; i++ {
+			fmt.Fprintf(&stale, "%064x,1,%064x,%064x,1600000000,545259519,%d,%d\n", i+1, i+2, i, i, i)
+		}
+		_ = os.WriteFile(filepath.Join(os.TempDir(), "headers.csv"), stale.Bytes(), 0o600)
+	}
 	if err := database.ExportHeaders(cfg, core.Quiet()); err != nil {
 		return nil, "", err
 	}
